@@ -3,10 +3,15 @@ C13 — property theorems: parallel execution is order-preserving and equivalent
 execution.  All theorems quantify over **every schedule** (any finite list of enabled
 transitions of the worker-pool transition system of `Model/C13.lean`), every worker count,
 every input list, every family of task callables and every set of failing tasks.
-Helper lemmas (invariant, measure) are in `Lemmas/C13Pool.lean`, `Lemmas/C13Doe.lean`.
+Successive `execute()` calls on one executor object and the shared full cache with Jacobians
+(any interleaving of the workers' atomic `cache_outputs` / `cache_jacobian` calls) are covered too.
+Helper lemmas (invariants, measure) are in `Lemmas/C13Pool.lean`, `Lemmas/C13Doe.lean`,
+`Lemmas/C13Session.lean`, `Lemmas/C13Cache.lean`.
 -/
 import GemseoVerif.Lemmas.C13Pool
 import GemseoVerif.Lemmas.C13Doe
+import GemseoVerif.Lemmas.C13Session
+import GemseoVerif.Lemmas.C13Cache
 
 namespace GV.C13
 
@@ -224,6 +229,143 @@ theorem parallel_eq_sequential (c : Cfg α β) (hp : 1 ≤ c.nProcs)
     rw [hr] at this
     cases this
 
+/-! ### Successive `execute()` calls on one executor object -/
+
+/-- **What a joined call leaves behind.**  When `execute` has joined its workers, `queue_in` is
+    empty and no worker holds a task; every task is either retrieved or still sits, *unread*, in
+    `queue_out` — and the latter happens only when a re-raised exception stopped the collector.
+    (This is exactly what a next call would inherit if the queues were kept on the executor.) -/
+theorem joined_call_leftovers (c : Cfg α β) (s : State β) (h : Reachable c s) (hp : 1 ≤ c.nProcs)
+    (hf : s.final = true) :
+    s.pending = [] ∧ s.queueIn = [] ∧ busyOf s.workers = [] ∧
+    (s.queueOut.map Prod.fst ++ s.collected).Perm (List.range c.nTasks) ∧
+    (s.stop = false → s.queueOut = []) := by
+  have hi := inv_reachable h
+  have hq := qinv_reachable h
+  simp only [State.final, Bool.and_eq_true] at hf
+  obtain ⟨hsent, hall⟩ := hf
+  have hpend := (hi.sent_ok hsent).2
+  have hbusy := busyOf_eq_nil_of_all_exited _ hall
+  have hex := (all_exited_iff _).mp hall
+  have hsen := hi.sentinels
+  simp only [hsent, if_true] at hsen
+  have hnone : nNone s.queueIn = 0 := by omega
+  have htasks : tasksOf s.queueIn = [] := by
+    by_cases hw : 0 < s.workers.length
+    · exact hq.drained (by omega)
+    · have hlen := hi.len
+      have hwl := hi.wlen
+      have : c.nTasks = 0 := by omega
+      apply List.eq_nil_of_length_eq_zero
+      omega
+  have hqin : s.queueIn = [] := by
+    obtain ⟨ts, k, hshape⟩ := hq.shape
+    rw [hshape, tasksOf_append, tasksOf_map_some, tasksOf_replicate_none, List.append_nil] at htasks
+    rw [hshape, nNone_append, nNone_replicate_none] at hnone
+    subst htasks
+    have : k = 0 := by omega
+    subst this
+    simpa using hshape
+  refine ⟨hpend, hqin, hbusy, ?_, ?_⟩
+  · have := each_task_once c s h
+    simpa [hpend, htasks, hbusy] using this
+  · intro hs
+    have hperm := collected_perm_of_final c s h (by simp [State.final, hsent, hall]) hs
+    have hlen := hi.len
+    have : s.collected.length = c.nTasks := by simpa using hperm.length_eq
+    apply List.eq_nil_of_length_eq_zero
+    omega
+
+/-- **A later call is positional, whatever happened before.**  Take any history of the executor
+    (`s` reachable by any session schedule: earlier calls with any inputs, any schedules, returned
+    or stopped by a re-raised exception with results left unread), call `execute(xs)` again, run
+    *any* schedule `ops` of the pool: if the call returns, it returns the sequential map of `xs`
+    — slot `i` holds `callable_i(xs[i])` — and the callbacks were called exactly once per
+    successful task of `xs` with the matching index. -/
+theorem execute_again_positional (c0 : Cfg α β) (s s1 s2 : Sess α β) (h : SReachable c0 s)
+    (xs : List α) (hcall : sstep? s (.call xs) = some s1)
+    (ops : List Op) (hrun : srun? s1 (ops.map SOp.op) = some s2)
+    (hf : s2.st.final = true) (outs : List (Option β)) (hr : s2.st.result = .returned outs) :
+    outs = seqMap ⟨xs, c0.callables, c0.nProcs⟩ ∧
+    s2.st.cbLog.Perm (seqCallbacks ⟨xs, c0.callables, c0.nProcs⟩) := by
+  have hi := sinv_reachable h
+  have hi1 := sinv_step hi hcall
+  obtain ⟨hcfg, _, hrun'⟩ := srun_ops hrun
+  have hc1 : s1.cfg = ⟨xs, c0.callables, c0.nProcs⟩ := by
+    simp only [sstep?] at hcall
+    split at hcall
+    · cases hcall
+      simp [← hi.callables, ← hi.nProcs]
+    · cases hcall
+  have hst1 : s1.st = init s1.cfg := by
+    simp only [sstep?] at hcall
+    split at hcall
+    · cases hcall; rfl
+    · cases hcall
+  have hreach : Reachable (⟨xs, c0.callables, c0.nProcs⟩ : Cfg α β) s2.st := by
+    rw [← hc1]
+    exact ⟨ops, by rw [← hst1]; exact hrun'⟩
+  have hpos := positional_results _ _ hreach hf outs hr
+  refine ⟨hpos, callbacks_exactly_once _ _ hreach hf ?_⟩
+  cases hst : s2.st.stop with
+  | false => rfl
+  | true =>
+    have := (raised_iff_stop _ _ hreach).mpr hst
+    rw [hr] at this
+    cases this
+
+/-- **Every call of a history is positional**: in any reachable session, the current call (once
+    joined) and every earlier call that returned, returned the sequential map of *its own*
+    inputs with the executor's callables; an earlier call that did not return re-raised an
+    exception of one of its own tasks. -/
+theorem every_call_positional (c0 : Cfg α β) (s : Sess α β) (h : SReachable c0 s) :
+    (s.cfg.callables = c0.callables ∧ s.cfg.nProcs = c0.nProcs ∧
+      ∀ outs, s.st.final = true → s.st.result = .returned outs → outs = seqMap s.cfg) ∧
+    ∀ p ∈ s.past, p.1.callables = c0.callables ∧ p.1.nProcs = c0.nProcs ∧ p.2.final = true ∧
+      (∀ outs, p.2.result = .returned outs → outs = seqMap p.1) ∧
+      (p.2.result = .raised → ∃ i, i < p.1.nTasks ∧ p.1.run i = .failStop) := by
+  have hi := sinv_reachable h
+  refine ⟨⟨hi.callables, hi.nProcs, fun outs hf hr => positional_results _ _ hi.cur hf outs hr⟩, ?_⟩
+  intro p hp
+  obtain ⟨hre, hfin, hc, hn⟩ := hi.past p hp
+  exact ⟨hc, hn, hfin, fun outs hr => positional_results _ _ hre hfin outs hr,
+    fun hr => raised_only_by_stop_task _ _ hre hr⟩
+
+/-- Non-vacuity: a first call stopped by a re-raised exception of task 0 while the results of
+    tasks 1 and 2 are left unread in `queue_out`, then a second call on other inputs. -/
+def exSession : List (SOp Nat) :=
+  [.op .submit, .op .submit, .op .submit, .op (.take 0), .op (.finish 0), .op .collect, .op .shutdown,
+   .op (.take 0), .op (.finish 0), .op (.take 0), .op (.finish 0), .op (.take 0),
+   .call [5, 6],
+   .op .submit, .op .submit, .op (.take 0), .op (.finish 0), .op .collect, .op (.take 0), .op (.finish 0),
+   .op .collect, .op .shutdown, .op (.take 0)]
+
+def exCfgStop0 : Cfg Nat Nat :=
+  ⟨[10, 20, 30], [fun x => if x = 10 then .failStop else .ok (2 * x + 1)], 1⟩
+
+example : (srun? (sinit exCfgStop0) exSession).map
+      (fun (s : Sess Nat Nat) => (s.st.final, s.st.result, s.st.cbLog))
+    = some (true, .returned [some 11, some 13], [(0, 11), (1, 13)]) := by decide
+
+/-- ... and the first call of this history had re-raised, leaving the results of tasks 1, 2 unread. -/
+example : (srun? (sinit exCfgStop0) exSession).map
+      (fun (s : Sess Nat Nat) => s.past.map (fun (p : Cfg Nat Nat × State Nat) =>
+        (decide (p.2.result = Result.raised), p.2.queueOut.map Prod.fst)))
+    = some [(true, [1, 2])] := by decide
+
+example : ∃ s, SReachable exCfgStop0 s ∧ s.st.final = true ∧ s.past.length = 1 :=
+  ⟨_, ⟨exSession, rfl⟩, by decide, by decide⟩
+
+/-- Contrast (what the model — and the code — must *not* do): if the next call started on the
+    queues of the previous one (`nextCallReusingQueues`), the same schedule would hand the unread
+    results of the first call to the second: slots and callbacks of the wrong inputs. -/
+example :
+    let prev : State Nat := { init exCfgStop0 with queueOut := [(1, .ok 41), (2, .ok 61)] }
+    let c' : Cfg Nat Nat := { exCfgStop0 with inputs := [5, 6] }
+    (run? c' (nextCallReusingQueues prev c') [.submit, .submit, .collect, .collect]).map
+        (fun s => (s.ordered, s.cbLog, s.nOutputs))
+      = some ([none, some 41], [(1, 41), (2, 61)], 2) := by decide
+
 /-! ### `DiscParallelLinearization`: the returned Jacobians are positional -/
 
 /-- The list of Jacobians has one slot per input, slot `i` holds the Jacobian of task `i`
@@ -367,6 +509,86 @@ theorem cache_entries_nodup (f : κ → ν) (xs : List κ) :
 example : cacheWrites (fun x : Nat => 2 * x) [] [3, 1, 3, 2] = [(3, 6), (1, 2), (2, 4)] := by decide
 
 end DOE
+
+/-! ### Shared full cache with outputs and Jacobians (`cache_outputs` / `cache_jacobian`) -/
+
+section JCACHE
+
+variable {κ ν γ : Type} [DecidableEq κ]
+
+/-- **Exact content after any interleaving.**  Workers sharing one full cache perform atomic
+    writes `cache_outputs(x, f x)` and `cache_jacobian(x, g x)` in *any* order `ops` (any number of
+    workers, repeated inputs, a Jacobian cached before/after/without the outputs): looking up `y`
+    afterwards gives the outputs `f y` iff some worker cached outputs for `y`, the Jacobian `g y`
+    iff some worker cached a Jacobian for `y` — never data of another input. -/
+theorem shared_cache_jacobian_lookup (f : κ → ν) (g : κ → γ) (ops : List (COp κ)) (y : κ) :
+    jLookup (jRun f g JCache.empty ops).entries y = jSpec f g ops y := by
+  have := jSpec_run f g JCache.empty [] ops (by intro y; simp [JCache.empty, jLookup_nil, jSpec]) y
+  simpa using this
+
+/-- **Every entry of the shared cache is sound**: one entry per input, and in each entry the
+    outputs (if any) are the outputs *of that entry's input* and the Jacobian (if any) is the
+    Jacobian *of that entry's input* — for every interleaving of the workers' writes. -/
+theorem shared_cache_entries_sound (f : κ → ν) (g : κ → γ) (ops : List (COp κ)) :
+    ((jRun f g JCache.empty ops).entries.map (·.key)).Nodup ∧
+    ∀ e ∈ (jRun f g JCache.empty ops).entries,
+      (e.out = none ∨ e.out = some (f e.key)) ∧ (e.jac = none ∨ e.jac = some (g e.key)) ∧
+      (e.out.isSome ↔ COp.out e.key ∈ ops) ∧ (e.jac.isSome ↔ COp.jac e.key ∈ ops) := by
+  have hn := nodup_keys_jRun f g JCache.empty ops (by simp [JCache.empty])
+  refine ⟨hn, ?_⟩
+  intro e he
+  have hl := mem_lookup_of_nodup hn he
+  rw [shared_cache_jacobian_lookup] at hl
+  simp only [jSpec] at hl
+  split at hl
+  · have he' := (Option.some.inj hl).symm
+    have ho : e.out = if COp.out e.key ∈ ops then some (f e.key) else none := by rw [he']
+    have hj : e.jac = if COp.jac e.key ∈ ops then some (g e.key) else none := by rw [he']
+    by_cases h1 : COp.out e.key ∈ ops <;> by_cases h2 : COp.jac e.key ∈ ops <;> simp [ho, hj, h1, h2]
+  · cases hl
+
+/-- **Linearisable**: two interleavings of the same atomic writes answer every look-up
+    identically — in particular the interleaving `exec₁, exec₂, lin₁, lin₂` gives what the
+    sequential order `exec₁, lin₁, exec₂, lin₂` gives. -/
+theorem shared_cache_linearisable_jac (f : κ → ν) (g : κ → γ) (ops ops' : List (COp κ))
+    (hp : ops.Perm ops') (y : κ) :
+    jLookup (jRun f g JCache.empty ops).entries y = jLookup (jRun f g JCache.empty ops').entries y := by
+  rw [shared_cache_jacobian_lookup, shared_cache_jacobian_lookup]
+  simp [jSpec, hp.mem_iff]
+
+/-- **Transparent**: when each worker executes then linearizes its own input (inputs `xs`), in
+    any interleaving, a look-up at `y` gives exactly `f y` and `g y` if `y` is one of the inputs
+    and nothing otherwise — what the sequential uncached computation gives. -/
+theorem cache_transparent_jac (f : κ → ν) (g : κ → γ) (xs : List κ) (ops : List (COp κ))
+    (hout : ∀ x, COp.out x ∈ ops ↔ x ∈ xs) (hjac : ∀ x, COp.jac x ∈ ops ↔ x ∈ xs) (y : κ) :
+    jLookup (jRun f g JCache.empty ops).entries y =
+      if y ∈ xs then some { key := y, out := some (f y), jac := some (g y) } else none := by
+  rw [shared_cache_jacobian_lookup]
+  simp only [jSpec, hout, hjac]
+  by_cases hy : y ∈ xs <;> simp [hy]
+
+/-- The mechanism: after an atomic write for `x`, `_last_accessed_index` designates the entry
+    of `x` (this is what places the next group at the right entry). -/
+theorem last_accessed_is_written (f : κ → ν) (g : κ → γ) (c : JCache κ ν γ) (op : COp κ) :
+    ((jApply f g c op).entries[(jApply f g c op).last - 1]?).map (·.key) = some op.key := by
+  cases op with
+  | out x => exact last_jCacheOutputs c x (f x)
+  | jac x => exact last_jCacheJacobian c x (g x)
+
+/-- Non-vacuity: the interleaving `exec 1, exec 2, lin 1, lin 2` (outputs `10 x`, Jacobian `100 x`). -/
+example : (jRun (fun x : Nat => 10 * x) (fun x : Nat => 100 * x) JCache.empty
+      [.out 1, .out 2, .jac 1, .jac 2]).entries
+    = [⟨1, some 10, some 100⟩, ⟨2, some 20, some 200⟩] := by decide
+
+/-- Contrast: if `_last_accessed_index` were not moved when the input data is already cached
+    (`jEnsureNoTouch`), the same interleaving would put the Jacobian of input 1 into the entry of
+    input 2 and drop the Jacobian of input 2. -/
+example :
+    (jCacheJacobianNoTouch (jCacheJacobianNoTouch (jCacheOutputsNoTouch (jCacheOutputsNoTouch
+        (JCache.empty : JCache Nat Nat Nat) 1 10) 2 20) 1 100) 2 200).entries
+    = [⟨1, some 10, none⟩, ⟨2, some 20, some 100⟩] := by decide
+
+end JCACHE
 
 /-! ### Non-vacuity: a concrete out-of-order schedule with a failing task -/
 
